@@ -138,6 +138,7 @@ def structural_trials(r, n):
     """margin length, new_page without page_by, grouping columns, df/figure exclusivity, section list lengths, figures."""
     out = []
     df3 = pl.DataFrame({"a": ["x", "y"], "b": [1, 2], "c": ["u", "v"]})
+    df4 = pl.DataFrame({"AGEGR1": ["x", "x"], "USUBJID": ["1", "1"], "AVAL": ["u", "u"]})
     png = os.path.join(rt.scratch_dir(), "c19.png")
     with open(png, "wb") as f:
         f.write(b"\x89PNG\r\n\x1a\n" + bytes(40))
@@ -154,10 +155,20 @@ def structural_trials(r, n):
                         "call": (lambda pb=pb, npg=npg: rtf.RTFBody(page_by=["a"] if pb else None, new_page=npg))})
         elif k == "columns":
             which = r.choice(["page_by", "subline_by", "group_by"])
-            col = r.choice(["a", "b", "zz", "A", ""])
-            ok = col in df3.columns
-            out.append({"name": f"s{i}", "component": "RTFDocument", "field": which, "kind": "columns", "raw": col, "flat": [int(ok)],
-                        "call": (lambda which=which, col=col: rtf.RTFDocument(df=df3, rtf_body=rtf.RTFBody(**{which: [col]})))})
+            if r.random() < 0.5:
+                frame, col = df3, r.choice(["a", "b", "zz", "A", ""])
+            else:
+                # names that are parts of, or straddle, the real column names
+                frame, col = df4, r.choice(["AGE", "SUBJID", "VAL", "AGEGR1", "USUBJID", "R1, US", ", ", "aval", "AGEGR1, USUBJID", " AVAL", "GR"])
+            ok = col in frame.columns
+            second = r.random() < 0.3      # the offending section is the second of two
+
+            def call(which=which, col=col, frame=frame, second=second):
+                if second:
+                    return rtf.RTFDocument(df=[frame, frame], rtf_body=[rtf.RTFBody(), rtf.RTFBody(**{which: [col]})])
+                return rtf.RTFDocument(df=frame, rtf_body=rtf.RTFBody(**{which: [col]}))
+            out.append({"name": f"s{i}", "component": "RTFDocument", "field": which, "kind": "columns", "raw": [col, int(second)],
+                        "flat": [int(ok)], "call": call})
         elif k == "content":
             has_df, has_fig = r.random() < 0.5, r.random() < 0.5
 
